@@ -12,13 +12,15 @@ BASELINE = ("OMPI_ALLOW_RUN_AS_ROOT=1 OMPI_ALLOW_RUN_AS_ROOT_CONFIRM=1 sh -c 'cm
 IRNOTE = ("Trusted: clang 14 IR generation and -O2 pipeline (used only as a normaliser), the specification table vlib/viewspec.py (documented "
           "index maps), ~700 lines of polynomial / IR-reader code, two's-complement overflow ignored. Views are built from raw descriptors "
           "through the public layout_t / subarray constructors, element type double, raw pointers; D<=3 quick, D<=4 thorough "
-          "(D<=3 for operations that add a dimension).")
+          "(D<=3 for operations that add a dimension). Where the library branches on a comparison the declared case does not fix, the case is partitioned "
+          "on that comparison (substitution or sign assumption per part) and every part is decided symbolically; a part that stays undecided is exit 2.")
 
 ANOTE = ("Trusted: clang 14 -O0 IR generation (incl. exception edges) + mem2reg; vlib/ir0.py, vlib/absint.py (term-domain abstract interpreter: the "
          "container layer is interpreted, allocation / element primitives are events, value-type helpers are opaque pure terms), vlib/typestate.py, "
          "vlib/ownrules.py; the primitive table; record layouts from clang. Element type Tracked (all special members external, noexcept(false)), "
          "allocator ObsAlloc (allocate may throw, deallocate noexcept, propagate traits as template parameters); D in {1,2} quick, {1,2,3} thorough. "
-         "Paths are enumerated per operation with a bound (exceeding it is exit 2, never a pass).")
+         "Paths are enumerated per operation with a bound (exceeding it is exit 2, never a pass); a loop written in the interpreted container layer itself "
+         "(instead of one of the library's element primitives) exceeds the bound and leaves the operations that reach it undecided (exit 2).")
 
 CHECKS = {
     "C01": dict(
@@ -101,7 +103,7 @@ CHECKS = {
               "(7 operand mixes x D, element ranges, and the value layer - range, extensions_t, layout_t, iterators - down to integer comparisons); "
               "a <= b == (a < b or a == b); a > b == b < a; a >= b == b <= a; a == b compares extensions() of every dimension; the six operators "
               "exist for D = 1..3 (4 thorough) and array / view / reference mixes (type level); range == range is 'both empty or same endpoints' "
-              "for all integers (order-type enumeration). R07.deep: a == b yields true only on paths that reach the element comparison or establish that both operands are the same view (base and complete layout)."),
+              "for all integers (order-type enumeration). Combinations of paths whose integer comparison atoms are jointly unsatisfiable (difference constraints over pure terms) are not combinations. R07.deep: a == b yields true only on paths that reach the element comparison or establish that both operands are the same view (base and complete layout)."),
         design_ref="DESIGN.md 3/C07", note=ANOTE + " Relations between operators that resolve to different equality implementations for the same operand types (array_ref's flat "
              "comparison vs the view comparison) are recorded as not comparable, not claimed. Not decided: the lexicographic order itself and transitivity over values.",
         technique="decision-tree extraction by abstract interpretation of -O0 LLVM IR; propositional relation check; compile-time witnesses; order types",
